@@ -405,6 +405,24 @@ def rule_A1_records(tree: Tree) -> RuleResult:
                             f"an exception from {fk} ({cls}; e.g. `{s0.text}` line {s0.line}) leaves the per-packet body of get_tls_records: the session's builder "
                             f"is never reached and everything already decrypted for this connection is lost — a longer capture then exports less than its prefix",
                             f.module.line(loop), es.chain(f, s0)))
+    # per record: a fault in one released record is absorbed inside the record loop — otherwise the remaining records of the batch are skipped
+    # and the release list is not cleared (the same records are handled again with the next segment: cipher state advances twice)
+    rec_loops = [n for n in body_walk(f.node) if isinstance(n, ast.For) and (dotted(n.iter) or "").endswith("_tls_records")]
+    if len(rec_loops) < 2:
+        raise AnchorMissing("get_tls_records: the two loops over the released records were not found")
+    for rl in rec_loops:
+        r.instances += 1
+        esc_r: Dict[Tuple[str, str], List[Site]] = {}
+        for st in rl.body:
+            for s in es.escapes_of_stmt(f, st, within=rl):
+                esc_r.setdefault((s.func_key, s.cls), []).append(s)
+        if not esc_r:
+            r.ob(True)
+        for (fk, cls), ss in sorted(esc_r.items())[:6]:
+            s0 = sorted(ss, key=lambda x: x.line)[0]
+            r.ob(False, Finding("A1r", f"session:Session.get_tls_records:per-record:{dotted(rl.iter)}:{fk}:{cls}",
+                                f"an exception from {fk} ({cls}; e.g. `{s0.text}` line {s0.line}) leaves the loop over `{dotted(rl.iter)}`: the records behind it are skipped and "
+                                f"the release list is not cleared, so they are handled a second time with the next segment", f.module.line(rl), es.chain(f, s0)))
     # … and nothing outside the loop may raise either (code after the loop runs when all records are already accumulated)
     r.instances += 1
     rest = [s for s in es.esc[f]]
